@@ -149,10 +149,10 @@ def run(chk):
         chk.ob("R-IDX", c + "{result}", "ptype 'all' returns the mapped indices", r.ret.origin == frozenset([r.I.alloc_tok(type("F", (), {"fi": fi})(), tk[0].node)])
                or "ret:clean_out_non_changing#1" in r.ret.tags, derived="origin %s" % sorted(r.ret.origin), loc=fi.loc(), nontrivial=False)
     else:
-        chk.ob("R-IDX", c, "one np.take through the index map", False, derived="%d" % len(tk), loc=fi.loc())
+        chk.ob("R-IDX", c, "one np.take through the index map", False, derived="%d" % len(tk), loc=fi.loc(), inconclusive=True)
     det = [e for e in r.events("call", GP) if e.callee.endswith("determine_indices_of_peaks_for_cleaned_array")]
     chk.ob("R-IDX", c + "{detector input}", "the detector runs on the cleaned array", len(det) == 1 and
-           "ret:clean_out_non_changing#0" in det[0].bound["values"].tags, derived="%d detector call(s)" % len(det), loc=det[0].loc if det else fi.loc())
+           "ret:clean_out_non_changing#0" in det[0].bound["values"].tags, derived="%d detector call(s)" % len(det), loc=det[0].loc if det else fi.loc(), inconclusive=not det)
     expect(chk, "R-IDX", c + ".result", r.ret, deg={R: 0}, parity={R: "even"}, sign="nonneg", dtype="int", loc=fi.loc())
     # the cleaning routine: on every return path, cleaned == np.take(values, map) for the map it returns
     qc = PK + "clean_out_non_changing"
@@ -179,11 +179,11 @@ def run(chk):
     okp = pr is not None and len(pr) == 3 and pr[0] == ("const", 0) and pr[1][0] == "arr" and "where-index" in pr[1][1] and \
         pr[2] == ("sym", repr(LinExpr("n") - 1))
     chk.ob("R-IDX", cd + "{ends}", "the result is index 0, the turning points, index len(values)-1, in that order (np.insert or np.concatenate)", okp,
-           derived="pieces %s" % ([(x[0], x[1] if x[0] != "arr" else "...") for x in pr] if pr else None), loc=r.fi.loc())
+           derived="pieces %s" % ([(x[0], x[1] if x[0] != "arr" else "...") for x in pr] if pr else None), loc=r.fi.loc(), inconclusive=pr is None)
     cm = [e for e in r.events("compare", q)]
     chk.ob("R-IDX", cd + "{turning test}", "a turning point is a strictly negative product of successive differences",
            len(cm) == 1 and cm[0].op == "Lt" and cm[0].right.has_const() and cm[0].right.const == 0 and alg_degree(cm[0].left.a(R)) == Exp(2) and
-           "diff" in cm[0].left.tags, derived="%s" % [(e.op, alg_str(e.left.a(R))) for e in cm], loc=cm[0].loc if cm else r.fi.loc())
+           "diff" in cm[0].left.tags, derived="%s" % [(e.op, alg_str(e.left.a(R))) for e in cm], loc=cm[0].loc if cm else r.fi.loc(), inconclusive=not cm)
     # the detector enforces a float copy ("enforce array type"): with fixed-width integer samples the successive differences and their
     # products must not be formed in the integer dtype (they wrap around and turning points are lost or invented)
     for pt in ("all", "max"):
@@ -257,6 +257,7 @@ def partition_scenarios(chk, fi, c):
         st = sorted(t for t in r.ret.tags if t.startswith("stride:"))
         return st, seen
     bad, orient_ok, exprs, raws = [], None, set(), False
+    unlocated = False
     for sgn in (1, 0, -1):
         smax, seen1 = run_("max", sgn)
         smin, seen2 = run_("min", sgn)
@@ -264,16 +265,19 @@ def partition_scenarios(chk, fi, c):
             exprs.add(tx)
             raws = raws or raw
         comp = len(smax) == 1 and len(smin) == 1 and {smax[0], smin[0]} == {"stride:0/2", "stride:1/2"}
+        if not smax and not smin:
+            unlocated = True       # no strided selection of an index array reaches either result: a design this rule does not know
         if not comp:
             bad.append("later %s earlier: max takes %s, min takes %s" % ({1: ">", 0: "==", -1: "<"}[sgn], smax, smin))
         if sgn == 1 and comp and all(o != 0 for _, o, _ in seen1):
             orient_ok = smax == ["stride:1/2"]
     chk.ob("R-PARTITION", c + "{scenario: strides}", "for every sign of the direction, 'max' and 'min' return the two complementary strides of the "
-           "index array", not bad and bool(exprs), derived="; ".join(bad) or "complementary for >, ==, < (direction: %s)" % sorted(exprs), loc=fi.loc())
+           "index array", not bad and bool(exprs), derived="; ".join(bad) or "complementary for >, ==, < (direction: %s)" % sorted(exprs), loc=fi.loc(),
+           inconclusive=(unlocated or not exprs) and not (bad and exprs and not unlocated))
     import re as _re
     operands = {tuple(sorted(_re.findall(r"[A-Za-z_]\w*\[[^\]]*\]*\]?", tx))) for tx in exprs}
     chk.ob("R-PARTITION", c + "{scenario: direction}", "both selections are decided by the same two samples of the series", len(operands) == 1,
-           derived="%s" % sorted(exprs), loc=fi.loc())
+           derived="%s" % sorted(exprs), loc=fi.loc(), inconclusive=not exprs)
     if orient_ok is not None:
         chk.ob("R-PARTITION", c + "{scenario: orientation}", "when the first segment rises the maxima are the odd entries [1::2]", orient_ok,
                derived="rising first segment: max takes %s" % ("[1::2]" if orient_ok else "[0::2]"), loc=fi.loc())
@@ -317,9 +321,10 @@ def ncyc_rules(chk):
             fp_parts = ip[0].args[2].parts if len(ip) == 1 else None
             chk.ob("R-NCYC", cc + "{shift}", "cycle numbers are 0 for the first index and 0.5*k %+g for the k-th (k >= 1)" % shift,
                    fp_parts == ("ap", 0.5, 0.0, shift) or fp_parts == ("ap", 0.5, 0, shift),
-                   derived="cycle numbers %s" % (fp_parts,), loc=ip[0].loc if ip else fi.loc())
+                   derived="cycle numbers %s" % (fp_parts,), loc=ip[0].loc if ip else fi.loc(), inconclusive=not (isinstance(fp_parts, tuple) and fp_parts[:1] == ("ap",)))
             chk.ob("R-NCYC", cc + "{monotone}", "the cycle numbers are nondecreasing (0 <= 0.5 + shift)", isinstance(fp_parts, tuple) and fp_parts[0] == "ap"
-                   and fp_parts[2] <= fp_parts[1] + fp_parts[3] and fp_parts[1] >= 0, derived="%s" % (fp_parts,), loc=fi.loc(), nontrivial=False)
+                   and fp_parts[2] <= fp_parts[1] + fp_parts[3] and fp_parts[1] >= 0, derived="%s" % (fp_parts,), loc=fi.loc(), nontrivial=False,
+                   inconclusive=not (isinstance(fp_parts, tuple) and fp_parts[:1] == ("ap",)))
     # option tables, decided on the interpretation (an if/elif chain and a dictionary dispatch are the same thing): anything but the two
     # documented values of each option raises
     for opt, start, what in (("bogus", "origin", "opt"), ("all", "bogus", "start")):
